@@ -189,7 +189,7 @@ Definition visit_root_pre (ck : clock) : SE v997 unit :=
     do s <- seg_append s (Some (ck_hms ck));
     do a <- xget seg "GS06"; do s <- seg_append s a;
     do a <- xget seg "GS07"; do s <- seg_append s a;
-    seg_append s icvn);
+    seg_append s (Some (l "004010")));      (* fix: GS08 is the version of the 997 itself, not ISA12 *)
   dos_ write gs_seg;
   dos gid <- se_lift (xget seg "GS06");
   se_mod (fun v => set_v_gs_loop_count (set_v_st_loop_count (set_v_gs v gid (Some gs_seg)) 0) (v_gs_loop_count v + 1)%Z).
